@@ -68,6 +68,7 @@ PROPERTY_RULES = {
     "C11": ["R24", "R5", "R27", "R6", "R26"],
     "C12": ["R5", "R27", "R3", "R6", "R7", "R17"],
     "C13": ["R21", "R22", "R28"],
+    "C14": ["R21", "R28", "R22", "R20"],
     "C16": ["R16", "R3", "R17"],
     "C17": ["R13", "R14", "R26"],
     "C18": ["R20", "R21", "R7"],
@@ -123,6 +124,12 @@ EXPLANATION = {
            "tracked array built by the public constructor (R21); the traversal that fills the frozen-mask / flat buffers and the one that "
            "consumes them visit the same parameters in a consistent order and select the same subset (R22); the optimizer has no "
            "interior-mutable state, so an update cannot depend on earlier ones (R28). Does NOT decide the arithmetic old - lr*g.",
+    "C14": "Clause-level static verdict for the second sentence of the property (no gradient, graph or other state of a previous "
+           "iteration leaks into the next one): update installs fresh, graph-free, gradient-free, tracked parameters built by the "
+           "public constructor (R21) in the right positions (R22); the gradient-descent optimizer has no interior-mutable state (R28); "
+           "the model retains a single output slot that is replaced as a whole, no type keeps a collection of arrays, no static or "
+           "thread-local holds arrays, backward closures capture no arrays (R20). Does NOT decide that each step follows the exact "
+           "gradient of the current loss (numeric).",
     "C16": "Clause-level static verdict: all refusal clauses via the constructor funnel and its dominating assertions plus no later "
            "write (R16,R3), and equality reads exactly dimensions and values as a conjunction (R17). Does NOT decide index arithmetic.",
     "C17": "Clause-level static verdict: linearity type system over every built-in backward closure and the engine's delta path "
